@@ -110,8 +110,8 @@ class Cache:
                 res.derived_from = set()
 
         elif isinstance(node, verbs.Select):
-            selected_uuids = set(col._uuid for col in node.select)
-            res.uuid_to_name = {uid: name for uid, name in self.uuid_to_name.items() if uid in selected_uuids}
+            # the selected columns in the order given to `select` (this is the order the backends use)
+            res.uuid_to_name = {col._uuid: self.uuid_to_name[col._uuid] for col in node.select}
             res.name_to_uuid = {name: uid for uid, name in res.uuid_to_name.items()}
 
         elif isinstance(node, verbs.Rename):
